@@ -31,7 +31,7 @@ namespace {
 static const char *METHODS[] = {"GET", "POST", "PUT", "DELETE", "HEAD", "OPTIONS", "TRACE"};
 
 // ops
-//   req <method> <target> <ver(0=1.1,1=1.0)> <conn(0 none,1 close,2 keep-alive)> <bodylen> <hmode(0 inline,1 runNext,2 timer)> <hdelay_ms> <nhdr>
+//   req <method> <target> <ver(0=1.1,1=1.0)> <conn(0 none,1 close,2 keep-alive,3 "TE, close",4 "close, TE",5 "keep-alive, TE")> <bodylen> <hmode(0 inline,1 runNext,2 timer)> <hdelay_ms> <nhdr>
 //   seg <size> <dt_ms>                     segment sizes, used cyclically (only in the segmented delivery)
 //   mut <pos> <val>    junk <len> <seed>   cut <after_bytes>         (hostile plans)
 void generate(sim::Rng &r, uint64_t seed, const std::string &tier, sim::Plan &p) {
@@ -44,9 +44,9 @@ void generate(sim::Rng &r, uint64_t seed, const std::string &tier, sim::Plan &p)
   for (int i = 0; i < nreq; ++i) {
     sim::Op op; op.kind = "req";
     long ver = 0, conn = 0;
-    if (i == close_at) { if (r.chance(500)) conn = 1; else { ver = 1; conn = r.chance(300) ? 1 : 0; } }
-    else if (r.chance(150)) { ver = 1; conn = 2; }            // HTTP/1.0 keep-alive: not a closing request
-    else if (r.chance(150)) conn = 2;
+    if (i == close_at) { if (r.chance(500)) conn = r.pick((const long[]){1, 1, 3, 4}); else { ver = 1; conn = r.chance(300) ? r.pick((const long[]){1, 3, 4}) : 0; } }
+    else if (r.chance(150)) { ver = 1; conn = r.chance(700) ? 2 : 5; }            // HTTP/1.0 keep-alive: not a closing request
+    else if (r.chance(150)) conn = r.chance(700) ? 2 : 5;
     long bl = r.chance(400) ? 0 : r.pick((const long[]){1, 2, 10, 100, 1000, 8192});
     if (thorough && r.chance(50)) bl = 70000;
     op.a = {(long)r.below(7), r.range(0, 99), ver, conn, bl, (long)r.below(3), r.range(0, 8), r.range(0, 4)};
@@ -94,7 +94,7 @@ std::string build_stream(const sim::Plan &plan, std::vector<Truth> &truth) {
     const char *m = METHODS[((op.arg(0) % 7) + 7) % 7];
     long tgt = std::max(0L, op.arg(1));
     bool v10 = op.arg(2) != 0;
-    long conn = ((op.arg(3) % 3) + 3) % 3;
+    long conn = ((op.arg(3) % 6) + 6) % 6;     // 0 none, 1 close, 2 keep-alive, 3 "TE, close", 4 "close, TE", 5 "keep-alive, TE"
     long bl = std::max(0L, std::min(100000L, op.arg(4)));
     std::string path = "/a" + std::to_string(tgt);
     std::string query_k = "q", query_v = std::to_string(idx);
@@ -109,8 +109,8 @@ std::string build_stream(const sim::Plan &plan, std::vector<Truth> &truth) {
     hdr.push_back({"Host", "h" + std::to_string(tgt)});
     hdr.push_back({"X-Seq", std::to_string(idx)});
     for (long k = 0; k < std::min(4L, std::max(0L, op.arg(7))); ++k) hdr.push_back({"X-H" + std::to_string(k), "v" + std::to_string(k * 3 + idx)});
-    if (conn == 1) hdr.push_back({"Connection", "close"});
-    if (conn == 2) hdr.push_back({"Connection", "keep-alive"});
+    static const char *const CONNV[] = {"", "close", "keep-alive", "TE, close", "close, TE", "keep-alive, TE"};
+    if (conn != 0) hdr.push_back({"Connection", CONNV[conn]});
     hdr.push_back({"Content-Length", std::to_string(bl)});
     std::string ver = v10 ? "HTTP/1.0" : "HTTP/1.1";
     s += std::string(m) + " " + path + "?" + query_k + "=" + query_v + " " + ver + "\r\n";
@@ -124,7 +124,7 @@ std::string build_stream(const sim::Plan &plan, std::vector<Truth> &truth) {
     for (auto &h : hdr) os << h.first << ": " << h.second << "\n";
     os << "\n" << body;
     t.canon = os.str();
-    t.closing = v10 ? (conn != 2) : (conn == 1);
+    t.closing = v10 ? (conn != 2 && conn != 5) : (conn == 1 || conn == 3 || conn == 4);
     t.hmode = ((op.arg(5) % 3) + 3) % 3;
     t.hdelay = std::max(0L, std::min(50L, op.arg(6)));
     t.end_off = s.size();
